@@ -48,7 +48,7 @@ class A(Adapter):
     terminate_on_invalid = False
     max_steps = 60
     episode_cap = 1500
-    ops = ("state", "step", "judge", "row", "bounds", "instance")
+    ops = ("state", "step", "judge", "row", "bounds", "instance", "spec")
     state_fields = ["board", "step_count", "action_mask", "score"]
 
     def configs(self, tier):
@@ -106,6 +106,12 @@ class A(Adapter):
 
     # ---- C09: synthetic rows
     def synthetic(self, ctx, cfg, env, runner, rng, drv):
+        # wave 3 (C01 spec membership): declared specs vs the model's obsSpec / actionSpec, observations as spec-level arrays,
+        # (obsSpec n).valid vs observation_spec.validate — every configuration
+        import spec_wave3 as w3
+
+        w3.check_specs(ctx, self, cfg, env, drv)
+        w3.check_reset_and_obs(ctx, self, cfg, env, runner, rng, drv, 2 if ctx.quick else 6, 6 if ctx.quick else 40)
         if cfg.meta["n"] != 4:          # once per sweep
             return
         import jax
